@@ -28,3 +28,10 @@ package dnsmsg
 //@   loop 2 invariant (#i1 + 1 == 0 ==> rrs == msg.Answer) && (#i1 + 1 == 1 ==> rrs == msg.Ns) && (#i1 + 1 == 2 ==> rrs == msg.Extra)
 //@   loop 2 invariant lowBoundUpTo(rrs, #i, ttl)
 //@   loop 2 invariant (#i1 + 1 >= 1 ==> lowBound(msg.Answer, ttl)) && (#i1 + 1 >= 2 ==> lowBound(msg.Ns, ttl))
+
+// SetMinTTL raises answer TTLs; it touches nothing else (frame used by C05).
+//@ func SetMinTTL
+//@   property C05
+//@   requires r != nil && validRRs(r.Answer)
+//@   modifies dns.RR_Header.Ttl
+//@   loop 1 invariant -1 <= #i && #i < len(r.Answer)
